@@ -71,7 +71,20 @@ var strPool = []string{"x", "yy", "a", "b", "zed"}
 // keyword is a symbol whose name starts with a colon, so :q and ":q" name one
 // key.  Pools only ever grow at the end: raw indices in stored replays keep
 // their meaning.
-var keyPool = []string{"a", "bb", "ccc", "k1xx", "Bzzzz", ":q", ":key77"}
+var keyPool = []string{"a", "bb", "ccc", "k1xx", "Bzzzz", ":q", ":key77", "", "!z", " sp"}
+
+// symbolOK: the last three names of keyPool (the EMPTY string and two names
+// that start below the double quote in byte order) can only be spelled as
+// strings; they pin the place of the empty key in the enumeration order.
+func symbolOK(name string) bool { return name != "" && name[0] != '!' && name[0] != ' ' }
+
+// symSpell is the symbol spelling of a key name where it has one.
+func symSpell(name string) string {
+	if !symbolOK(name) {
+		return strconv.Quote(name)
+	}
+	return "'" + name
+}
 var symPool = []string{"p", "qq", "sym", "s4x2", "long-name"}
 var typeNames = []string{"list", "vector", "bytes", "string"}
 
@@ -256,7 +269,7 @@ func (h *heap) renderVia(v *via) string {
 			e = "(aref " + e + " " + strings.Join(idx, " ") + ")"
 			o = x.cells[p.idx]
 		case *mMap:
-			e = "(get " + e + " " + renderKey(ckey{name: p.key, sym: mod(p.acc, 2) == 0}) + ")"
+			e = "(get " + e + " " + renderKey(ckey{name: p.key, sym: mod(p.acc, 2) == 0 && symbolOK(p.key)}) + ")"
 			o = x.ents[p.key].v
 		}
 	}
@@ -374,7 +387,7 @@ func renderKey(k ckey) string {
 	if k.bad {
 		return "7"
 	}
-	if k.sym {
+	if k.sym && symbolOK(k.name) {
 		if strings.HasPrefix(k.name, ":") {
 			return k.name // a keyword evaluates to itself
 		}
@@ -482,7 +495,8 @@ func resolve(st Step, h *heap) *cop {
 		c.args = append(c.args, h.resolveArg(a))
 	}
 	for _, k := range st.Keys {
-		c.keys = append(c.keys, ckey{name: keyPool[mod(k.N, len(keyPool))], sym: k.Sym})
+		kn := keyPool[mod(k.N, len(keyPool))]
+		c.keys = append(c.keys, ckey{name: kn, sym: k.Sym && symbolOK(kn)})
 	}
 	if len(c.keys) == 0 {
 		c.keys = []ckey{{name: keyPool[0]}}
@@ -1372,9 +1386,9 @@ func probes(rt *vcommon.Rt, h *heap, si int, fail func(string, string, ...any) *
 		var b strings.Builder
 		fmt.Fprintf(&b, "(list (length %s) (keys %s)", g, g)
 		for _, k := range keyPool {
-			fmt.Fprintf(&b, " (get %s '%s) (get %s %q) (key? %s '%s) (key? %s %q)", g, k, g, k, g, k, g, k)
+			fmt.Fprintf(&b, " (get %s %s) (get %s %q) (key? %s %s) (key? %s %q)", g, symSpell(k), g, k, g, symSpell(k), g, k)
 		}
-		fmt.Fprintf(&b, " (assoc %s '%s 77) (assoc %s %q 77) (dissoc %s '%s) (dissoc %s %q))", g, pk, g, pk, g, pk, g, pk)
+		fmt.Fprintf(&b, " (assoc %s %s 77) (assoc %s %q 77) (dissoc %s %s) (dissoc %s %q))", g, symSpell(pk), g, pk, g, symSpell(pk), g, pk)
 		o := rt.Load(b.String())
 		if o.Panic {
 			return fail("internal-panic/map-probe", "map probe recovered a Go panic: %s", o.Msg)
